@@ -693,6 +693,10 @@ func (repo *GoGitRepo) UpdateRef(ref string, hash Hash) error {
 
 // RemoveRef will remove a Git reference
 func (repo *GoGitRepo) RemoveRef(ref string) error {
+	// removing a packed ref rewrites the packed-refs file: two concurrent removals would lose one of them
+	repo.rMutex.Lock()
+	defer repo.rMutex.Unlock()
+
 	return repo.r.Storer.RemoveReference(plumbing.ReferenceName(ref))
 }
 
